@@ -4,6 +4,7 @@ from __future__ import annotations
 
 import asyncio
 import itertools
+import time
 
 from .. import gen, lib
 from ..lib import Corr, enc
@@ -388,12 +389,20 @@ async def _listen_trace(h, fresh_listener: bool):
     plus how it was observed, the active protocol before the step, whether the registry / buffers / version changed or
     something was written, and whether listen went on to read the following line."""
     from .. import gw
-    from aiomysensors import exceptions as exc
     g, tr = gw.build_gateway(h)
+    return await _listen_on(g, tr, h.ops, fresh_listener)
+
+
+async def _listen_on(g, tr, ops, fresh_listener: bool, keep_version: str | None = None):
+    """`_listen_trace` on a Gateway object that already exists (`tr` its FaultTransport).  With `keep_version`, the
+    gateway's reported version is set back to it after a step that changed it (a long-lived gateway used for probes
+    under one protocol version)."""
+    from .. import gw
+    from aiomysensors import exceptions as exc
     listener = None
     trace = []
     state = gw.render_state(g)
-    for op in h.ops:
+    for op in ops:
         line = op[1]
         tr.attempts = []
         tr.faults = []
@@ -424,6 +433,9 @@ async def _listen_trace(h, fresh_listener: bool):
         state = gw.render_state(g)
         trace.append({"obs": obs, "how": how, "proto": proto, "touched": state != before or bool(tr.attempts),
                       "overread": len(tr.lines) < 1})
+        if keep_version is not None and g.protocol_version != keep_version:
+            g.protocol_version = keep_version
+            state = gw.render_state(g)
     if listener is not None:
         await listener.aclose()
     return trace
@@ -523,8 +535,12 @@ def run_c02(ctx) -> Corr:
                 "compared: accept/reject + decoded values + exception class, implementation vs Lean decode vs the "
                 "property's literal predicate; every (line, version) twice: MessageSchema.load, and end to end as a "
                 "transport line read through Gateway.listen on a real Gateway (histories of <= 40 lines, empty and "
-                "populated registries, one listen() generator or a fresh one per line). non-trivial = distinct (line, "
-                "version) whose outcome is reject, or accept with a non-canonical numeral")
+                "populated registries, one listen() generator or a fresh one per line); then the boundary lines (node / "
+                "child id 0/254/255/256 x every command) again before and after every step of other activity of the "
+                "library in the same process (sessions on persistence files, saves / loads, other schema and gateway "
+                "objects), through decoders created for the probe and decoders created before that activity. "
+                "non-trivial = distinct (line, version) whose outcome is reject, or accept with a non-canonical "
+                "numeral; for the interference probes: distinct (steps so far, decoder, version, line) after at least one step")
     corr.notes.append("Gateway.listen part: judged by the property's predicate (reject = InvalidMessageError that does not carry a "
                       "decoded Message, nothing yielded, no state change, no write, the following line not read; accept = the "
                       "yielded message, or the Message carried by a handler's library error, has exactly the spelled values) and "
@@ -567,4 +583,10 @@ def run_c02(ctx) -> Corr:
             if md != got:
                 corr.disagree("decode", {**case, "impl": repr(got), "model": repr(md)})
     listen_end_to_end(corr, ctx, triples, model_of)
+    # ... and decoding must not depend on what else the library did in the process (restarts on a persistence file,
+    # saves, other schema / gateway objects): probes before and after every step of such activity
+    from . import codec_interference
+    t0 = time.time()
+    codec_interference.run(corr, ctx, model_of)
+    corr.notes.append(f"interference part took {time.time() - t0:.1f}s")
     return corr
